@@ -809,6 +809,111 @@ fn run_binom(cfg: &Cfg, rep: &mut Report) {
     for r in ["binom_coeff:n<=67", "binom_coeff:68<=n<=1e4,k<=32", "binom_coeff:n>1e4,k<=32", "binom_coeff:68<=n<=1e4,k>=n-32", "binom_coeff_alt:n<=45"] {
         rep.require(r, 1);
     }
+    run_binom_alt_large(cfg, rep);
+}
+
+/// ln(m!) summed in f64 (harness side; enters the rounding terms of the accuracy bound only).
+fn ln_fact(m: u64) -> f64 {
+    (2..=m).map(|i| (i as f64).ln()).sum()
+}
+
+/// Relative accuracy that C09 guarantees for `gamma` on every argument whose true value is a finite
+/// normal f64 (the three arguments n+1, k+1, n−k+1 <= 171 are such arguments).
+const GAMMA_REL: f64 = 1e-13;
+
+/// A-priori relative error of x = exp(ln Γ(n+1) − ln Γ(k+1) − ln Γ(n−k+1)) before it is rounded to an
+/// integer, from the accuracy clause of C09 alone:
+///   * three gamma values of relative error δ <= 1e-13 each: |ln(1+δ)| <= δ(1+δ), absolute in the exponent;
+///   * three logarithms, each within 1 ulp = 2u of the exact one: 2u(A + B + C), A = ln n!, B = ln k!, C = ln (n−k)!;
+///   * two correctly rounded subtractions: u|A − B| + u|L|, L = ln C(n,k);
+///   * an absolute error E in the exponent is a relative error expm1(E) of the exponential, which itself is
+///     within 1 ulp = 2u.
+/// For 68 <= n <= 170 and C(n,k) < 2^64 this is between 3.6e-13 and 6.9e-13.
+fn alt_rel_bound(n: u64, k: u64) -> f64 {
+    let u = 0.5 * EPS;
+    let (a, b, c) = (ln_fact(n), ln_fact(k), ln_fact(n - k));
+    let l = a - b - c;
+    let e = 3.0 * GAMMA_REL * (1.0 + GAMMA_REL) + 2.0 * u * (a + b + c) + u * ((a - b).abs() + l.abs());
+    e.exp_m1() * (1.0 + 2.0 * u) + 2.0 * u
+}
+
+/// The gamma-based coefficient beyond the exhaustive table: every n from 68 up to the largest n whose
+/// factorial Γ(n+1) is a finite f64, every k <= 32 and every k >= n − 32 with C(n,k) < 2^64, against the
+/// u128 oracle. |got − C| <= floor(bound·C + 1/2) — the rounding to the nearest integer adds at most 1/2 —
+/// so wherever bound·C < 1/2 the result must be the exact integer. Beyond that n the function cannot
+/// work (Γ(n+1) overflows): what it returns is counted as evidence, never judged.
+fn run_binom_alt_large(cfg: &Cfg, rep: &mut Report) {
+    // largest n with n! finite in f64
+    let mut n_top = 1u64;
+    let mut f = 1.0f64;
+    while (f * (n_top + 1) as f64).is_finite() {
+        n_top += 1;
+        f *= n_top as f64;
+    }
+    let lo_regime = format!("binom_coeff_alt:68<=n<={},k<=32", n_top);
+    let hi_regime = format!("binom_coeff_alt:68<=n<={},k>=n-32", n_top);
+    let stride = if cfg.miri() { 17 } else { 1 };
+    let mut max_bound = 0.0f64;
+    for n in (68..=n_top).step_by(stride) {
+        for j in 0..=32u64 {
+            if cfg.miri() && ![0, 2, 9, 32].contains(&j) {
+                continue;
+            }
+            let e = match exact::binom_u128(n, j) {
+                Some(v) if v <= u64::MAX as u128 => v,
+                _ => continue,
+            };
+            let rel = alt_rel_bound(n, j);
+            max_bound = max_bound.max(rel);
+            let slack = rel * e as f64 + 0.5;
+            let demand_exact = slack < 1.0;
+            let allowed = slack.floor();
+            for (k, regime) in [(j, &lo_regime), (n - j, &hi_regime)] {
+                rep.case(regime);
+                rep.distinct(Hasher::new().s("balt").u(n).u(k).finish(), j >= 1);
+                rep.seen(if demand_exact { "cover:binom_coeff_alt:large-n:bound<1/2(exact)" } else { "cover:binom_coeff_alt:large-n:bound>=1/2" }, 1);
+                let got = guard(|| binom_coeff_alt(n, k));
+                let d = match &got {
+                    Ok(v) => (*v as i128 - e as i128).unsigned_abs() as f64,
+                    Err(_) => f64::INFINITY,
+                };
+                rep.note_max("worst_ratio.binom_coeff_alt.large-n(|got-C|/(bound*C+1/2))", d / slack);
+                if !demand_exact {
+                    rep.note_max("worst_rel_err.binom_coeff_alt.large-n(where bound*C>=1/2)", d / e as f64);
+                    rep.note_max("worst_ratio.binom_coeff_alt.large-n.rel_err/rel_bound(where bound*C>=1/2)", (d - 0.5).max(0.0) / (rel * e as f64));
+                }
+                let assertion = if demand_exact { "C17.binom_coeff_alt.exact_where_bound<1/2" } else { "C17.binom_coeff_alt.accuracy" };
+                rep.check(assertion, regime, d <= allowed, || {
+                    json!({"n": n, "k": k, "observed": match &got { Ok(v) => json!(v.to_string()), Err(m) => json!({"panic": m}) }, "expected": e.to_string(),
+                           "abs_err": jnum(d), "allowed_abs_err": allowed, "rel_bound": rel, "bound_from": "3 gamma values at 1e-13 (C09) + ln/exp round trip"})
+                });
+            }
+        }
+    }
+    rep.note_max("binom_coeff_alt.large-n.max_rel_bound", max_bound);
+    rep.require(&lo_regime, 1);
+    rep.require(&hi_regime, 1);
+    rep.require("cover:binom_coeff_alt:large-n:bound<1/2(exact)", 1);
+    rep.require("cover:binom_coeff_alt:large-n:bound>=1/2", 1);
+    // beyond the range of gamma: evidence only
+    let beyond: Vec<u64> = if cfg.miri() { vec![n_top + 1, 1000] } else { (n_top + 1..=n_top + 60).chain([300, 1000, 100_000, 1 << 32, u64::MAX / 4]).collect() };
+    for n in beyond {
+        for k in [0u64, 1, 2, 5, 12] {
+            let e = match exact::binom_u128(n, k) {
+                Some(v) if v <= u64::MAX as u128 => v,
+                _ => continue,
+            };
+            rep.case("binom_coeff_alt:n>gamma-range(evidence only)");
+            let outcome = match guard(|| binom_coeff_alt(n, k)) {
+                Err(_) => "panicked",
+                Ok(v) if v as u128 == e => "returned_the_exact_value",
+                Ok(u64::MAX) => "returned_u64::MAX",
+                Ok(0) => "returned_0",
+                Ok(_) => "returned_another_value",
+            };
+            rep.note_add(&format!("binom_coeff_alt.n>{}(gamma overflows; not judged).{}", n_top, outcome), 1.0);
+        }
+    }
 }
 
 // ---------------------------------------------------------------------------------------------
@@ -1194,14 +1299,14 @@ fn run_added_families(cfg: &Cfg, rep: &mut Report) {
 }
 
 pub fn run(cfg: &Cfg, rep: &mut Report) {
-    rep.rule = "logistic: consecutive f32 values in ±745 (thorough: all of them; quick: stratified runs), round trips on random x in ±30 and p in [0,1] (interior, tiny, near 1, subnormal, end points); softmax: lengths 1..1000, entries on a 2^-20 grid in ±1e4, one input class per magnitude regime, each vector also shifted by ±1e3, ±1e4, -max; Box–Cox: x, x+shift log-uniform in (1e-6,1e6), λ in ±5 incl. 0 and |λ|<1e-8, four (x>shift, x+shift>0) classes; binomial: every (n,k) with n<=67, then random n>=68 with k<=32 or k>=n-32 up to the largest n whose value fits 64 bits. rejection probes: NaN (both signs, quiet/signalling patterns, random payloads), ±inf and the representable neighbours of each domain edge for logit, boxcox, boxcox_shifted; history: each of the seven functions re-evaluated at one argument after itself, after near neighbours (2^-52..1e-6 away), in a sweep and on a fresh thread. non-trivial = softmax vector with >= 2 distinct entries, 0<k<n, x != 1, shift != 0; distinct by argument bits".into();
+    rep.rule = "logistic: consecutive f32 values in ±745 (thorough: all of them; quick: stratified runs), round trips on random x in ±30 and p in [0,1] (interior, tiny, near 1, subnormal, end points); softmax: lengths 1..1000, entries on a 2^-20 grid in ±1e4, one input class per magnitude regime, each vector also shifted by ±1e3, ±1e4, -max; Box–Cox: x, x+shift log-uniform in (1e-6,1e6), λ in ±5 incl. 0 and |λ|<1e-8, four (x>shift, x+shift>0) classes; binomial: every (n,k) with n<=67, then random n>=68 with k<=32 or k>=n-32 up to the largest n whose value fits 64 bits; the gamma-based binom_coeff_alt additionally at every n in 68..170 with every k<=32 and k>=n-32 whose value fits 64 bits. rejection probes: NaN (both signs, quiet/signalling patterns, random payloads), ±inf and the representable neighbours of each domain edge for logit, boxcox, boxcox_shifted; history: each of the seven functions re-evaluated at one argument after itself, after near neighbours (2^-52..1e-6 away), in a sweep and on a fresh thread. non-trivial = softmax vector with >= 2 distinct entries, 0<k<n, x != 1, shift != 0; distinct by argument bits".into();
     rep.assume("NaN is generated only as an argument outside the domains: logit must reject it (it is not inside [0,1]); for Box–Cox it does not satisfy x + shift > 0 and the outcome is recorded, not judged; values of the transforms at NaN, and NaN as λ, are outside the quantifier");
     rep.assume("Box–Cox: the statement promises a value on x + shift > 0 and nothing outside it (no rejection clause, unlike logit): calls with -inf, NaN, 0, -0 and the negative neighbours of 0 are made and their outcome (panic or value) is counted in coverage.notes outside_domain.*, not judged; the positive neighbour of 0 must be accepted");
     rep.assume("history independence: every function of C17 is a function of its arguments, so one argument has one result (bit pattern or panic) whatever the thread called before; compared against the same call made directly after an unrelated call of the same function and, for one case in 8, as the first call of a new thread");
     rep.assume("round-trip and softmax bounds carry an absolute underflow term of a few times the smallest normal number: results in the subnormal range have absolute, not relative, rounding error");
     rep.assume("softmax order preservation is non-strict (x_i < x_j ⇒ s_i <= s_j, equal inputs ⇒ identical outputs): far-below-maximum entries legitimately underflow to equal values");
     rep.assume("softmax inputs lie on a 2^-20 grid so that adding ±1e3, ±1e4 is exact; shifted vectors with an entry beyond ±1e4 are skipped");
-    rep.assume("binom_coeff is not judged when C(n,k) >= 2^64 (the property is silent there); binom_coeff_alt is judged only for n <= 67");
+    rep.assume("binom_coeff is not judged when C(n,k) >= 2^64 (the property is silent there); binom_coeff_alt is judged for n <= 67 (exact up to 45 as documented, then 1e-12 relative or ±2) and, for every n from 68 up to the largest n whose factorial is a finite f64 (170) with k <= 32 or k >= n-32 and C(n,k) < 2^64, against |got − C| <= floor(b·C + 1/2) with the a-priori relative bound b = expm1(3e-13 + 2u(ln n! + ln k! + ln (n−k)!) + u(|ln n! − ln k!| + ln C)) + 2u <= 6.9e-13 that follows from the 1e-13 gamma accuracy of C09 and a 1-ulp ln/exp (exact wherever b·C < 1/2); beyond that n gamma overflows and the returned value is counted in coverage.notes, not judged");
     rep.assume("Box–Cox accuracy is judged against the conditioning of the function ((x^λ−1)/λ is well conditioned near λ = 0): 16ε(1+|λ ln t|) relative");
     // added families first (rejection probes, history independence): merged while the report is small
     run_added_families(cfg, rep);
